@@ -5,7 +5,7 @@
 # project's unit tests of the touched crate(s) pass, demo FAILS.  Writes /tmp/seed/out/<ID>/confirm.log.
 ID=$1
 WT=/tmp/seed/$ID; OUT=/tmp/seed/out/$ID
-export CARGO_TARGET_DIR=/tmp/seed/target CARGO_NET_OFFLINE=true
+if [ -d /tmp/seed/target-$ID ]; then export CARGO_TARGET_DIR=/tmp/seed/target-$ID; else export CARGO_TARGET_DIR=/tmp/seed/target; fi; export CARGO_NET_OFFLINE=true RUST_BACKTRACE=0
 cd $WT || exit 2
 LOG=$OUT/confirm.log; : > $LOG
 git checkout -q -- . && git clean -fdq -e target
